@@ -246,7 +246,35 @@ theorem reduce_safe (F : CertFacts T C) (env : Env) (s : St) (t : Nat) (st : Lis
               simp only [List.headD_cons]
               refine Chain.step hdrop ?_
               have hacc' : prod.accept = false := by simpa using hacc
-              simp only [hacc', Bool.false_or] at hbw
+              simp only [hacc', Bool.false_eq_true, if_false] at hbw
               exact (List.all_eq_true.mp hbw) q0 h4
+
+
+/-- a chain whose top state is 0 is the empty stack -/
+theorem Chain.bottom (F : CertFacts T C) {st : List Nat} {sy : List Sym} (h : Chain C (0 :: st) sy) : st = [] ∧ sy = [] := by
+  cases h with
+  | base => exact ⟨rfl, rfl⟩
+  | step hc he => exact absurd rfl (F.edge _ _ _ he).1
+
+/-- the accepting reduction pops the whole stack -/
+theorem accept_empties (F : CertFacts T C) (s : St) (t : Nat) (st : List Nat) (p : Nat) (prod : Production)
+    (hst : s.states = t :: st) (hc : Chain C s.states s.syms) (hred : C.redOK T t p = true)
+    (hp : T.prods[p]? = some prod) (hacc : prod.accept = true) : s.syms.drop prod.rhs.length = [] := by
+  unfold Cert.redOK at hred
+  simp only [hp, Bool.and_eq_true, beq_iff_eq] at hred
+  obtain ⟨⟨hlen1, _⟩, hbw⟩ := hred
+  cases hb : C.backWalk [t] prod.rhsIds.reverse with
+  | none => simp [hb] at hbw
+  | some q0s =>
+    simp only [hb, hacc, if_true] at hbw
+    rw [hst] at hc
+    obtain ⟨h1, _, q0, r, h3, h4⟩ := backWalk_sound T C F _ [t] t st s.syms q0s hc (by simp) hb
+    simp only [List.length_reverse] at h1 h3
+    have hq0 : q0 = 0 := by simpa using (List.all_eq_true.mp hbw) q0 h4
+    subst hq0
+    have hdrop := hc.drop prod.rhsIds.length (by omega)
+    rw [h3] at hdrop
+    rw [hlen1]
+    exact (Chain.bottom T C F hdrop).2
 
 end Aidl.Props.LrSafe
